@@ -79,7 +79,7 @@ def run(ctx):
             if got != want:
                 ctx.violation(case, "introns", {"observed": got, "expected": want})
             try:
-                gs = sorted([I.view(x) for x in d.create_splice_sites()], key=json.dumps)
+                gs = sorted([I.view(x) for x in d.create_splice_sites(numeric_sort=m["numeric"])], key=json.dumps)
                 ws = sorted([I.canon_view(v) for v in e["splice"]], key=json.dumps)
                 if gs != ws:
                     ctx.violation(case, "splice_sites", {"observed": gs, "expected": ws})
@@ -112,7 +112,7 @@ def replay(ctx, rec):
             srt = lambda l: sorted(l, key=json.dumps)
             if srt([I.view(x) for x in d.create_introns(numeric_sort=m["numeric"], merge_attributes=m["mergeA"])]) != srt([I.canon_view(v) for v in e["introns"]]):
                 return True
-            return srt([I.view(x) for x in d.create_splice_sites()]) != srt([I.canon_view(v) for v in e["splice"]])
+            return srt([I.view(x) for x in d.create_splice_sites(numeric_sort=m["numeric"])]) != srt([I.canon_view(v) for v in e["splice"]])
         except Exception:  # noqa
             return True
     return True
